@@ -174,7 +174,13 @@ class DispatchModel:
             self.running_queued += 1
         try:
             act = w.get('action')
-            if act:
+            if act and act[0] == 'unwatch':
+                # the registration ends now; the dispatch in progress keeps the watchers it started with
+                self._hit('unwatch-in-callback')
+                for x in self.W:
+                    if x['id'] == 'w%d' % act[1]:
+                        x['active'] = False
+            elif act:
                 self._hit('cascade')
                 self.assign(act[1], act[2])
         finally:
